@@ -141,6 +141,22 @@ class Kit:
     def int(self, name, lo=None, hi=None, witness=None, draw=None) -> Expr:
         return self._var(name, "I", lo, hi, witness, draw)
 
+    def binary(self, name) -> Expr:
+        """a variable taking the values 0 and 1 only: declared to the ring back end by the side relation b^2 = b"""
+        v = self._var(name, "R", None, None, None, draw=None)
+        self.env[name] = Fraction(self.rng.randint(0, 1)) if name not in self.fixed_env else Fraction(round(float(self.fixed_env[name])))
+        self.vars[name] = ("I", 0, 1)
+        self.assume(E.eq(E.mul(v, v), v))
+        if self.mode == "sym":
+            self.run.ring.add_square_relation(v, v)
+        return v
+
+    def binaries(self, name, shape) -> np.ndarray:
+        out = np.empty(tuple(shape), dtype=object)
+        for idx in np.ndindex(*out.shape):
+            out[idx] = self.binary(f"{name}{list(idx)}".replace(" ", ""))
+        return out
+
     def reals(self, name, shape, lo=None, hi=None) -> np.ndarray:
         out = np.empty(tuple(shape), dtype=object)
         for idx in np.ndindex(*out.shape):
@@ -207,7 +223,9 @@ class Kit:
         name = getattr(fn, "__qualname__", getattr(fn, "__name__", str(fn)))
         self.calls.append(name)
         snap = None
-        tensors = _reachable_tensors(list(args) + list(kwargs.values()) + list(protect))
+        bound = getattr(fn, "__self__", None)
+        recv = [bound] if bound is not None and not isinstance(bound, type) and not inspect.ismodule(bound) else []
+        tensors = _reachable_tensors(recv + list(args) + list(kwargs.values()) + list(protect))
         mod_keys = {m.untyped_storage()._cdata for m in modifies}
         if self.mode == "sym":
             st = self.st
